@@ -725,7 +725,11 @@ def string_fragment(report, uri_consts, shape_consts):
             ("shexer/io/graph/yielder/big_ttl_triples_yielder.py", 'BigTtlTriplesYielder', '_parse_cornered_element', 'ttl_parse_cornered_element',
              {'self._base': 'optstr', 'cornered_element': 'str'}, 'str'),
             ("shexer/io/graph/yielder/big_ttl_triples_yielder.py", 'BigTtlTriplesYielder', '_next_line_token', 'ttl_next_line_token',
-             {'self._base': 'optstr', 'a_line': 'str', 'start_index': 'int'}, 'optstrint')]
+             {'self._base': 'optstr', 'a_line': 'str', 'start_index': 'int'}, 'optstrint'),
+            ("shexer/io/graph/yielder/big_ttl_triples_yielder.py", 'BigTtlTriplesYielder', '_clean_line', 'ttl_clean_line', {'str_line': 'str'}, 'str'),
+            ("shexer/io/graph/yielder/big_ttl_triples_yielder.py", 'BigTtlTriplesYielder', '_is_num_literal', 'ttl_is_num_literal', {'elem': 'str'}, 'bool'),
+            ("shexer/io/graph/yielder/big_ttl_triples_yielder.py", 'BigTtlTriplesYielder', '_parse_elem', 'ttl_parse_elem',
+             {'self._base': 'optstr', 'self._prefixes': 'strdict', 'raw_elem': 'str'}, 'optstr')]
     funcs = {}
     for rel, cls, pyname, lname, types, ret in jobs:
         try:
@@ -745,10 +749,25 @@ def string_fragment(report, uri_consts, shape_consts):
                     for al in node.names:
                         if al.asname is None and al.name in funcs.get('*', {}):
                             local.setdefault(al.name, funcs['*'][al.name])
+            for node in tree.body:      # module constants `L = ["a", "rdf:type"]`: lists of strings; `P = re.compile("  +")`
+                if isinstance(node, ast.Assign) and len(node.targets) == 1 and isinstance(node.targets[0], ast.Name) and isinstance(node.value, ast.List) \
+                        and node.value.elts and all(isinstance(e_, ast.Constant) and isinstance(e_.value, str) for e_ in node.value.elts):
+                    local[node.targets[0].id] = ('strconstlist', [e_.value for e_ in node.value.elts])
+                if isinstance(node, ast.Assign) and len(node.targets) == 1 and isinstance(node.targets[0], ast.Name) and isinstance(node.value, ast.Call) \
+                        and isinstance(node.value.func, ast.Attribute) and node.value.func.attr == 'compile' and isinstance(node.value.func.value, ast.Name) \
+                        and node.value.func.value.id == 're' and len(node.value.args) == 1 and isinstance(node.value.args[0], ast.Constant) \
+                        and node.value.args[0].value == "  +":
+                    local[node.targets[0].id] = ('several_blanks',)
             for node in tree.body:      # module constants `L = ["a", "b"]`: lists of one-character strings
                 if isinstance(node, ast.Assign) and len(node.targets) == 1 and isinstance(node.targets[0], ast.Name) and isinstance(node.value, ast.List) \
                         and node.value.elts and all(isinstance(e_, ast.Constant) and isinstance(e_.value, str) and len(e_.value) == 1 for e_ in node.value.elts):
                     local[node.targets[0].id] = ('charlist', "".join(e_.value for e_ in node.value.elts))
+            try:            # the string constants of the module itself
+                for k_, v_ in module_consts(tree).items():
+                    if isinstance(v_, str) and k_ not in local:
+                        local[k_] = v_
+            except Exception:
+                pass
             local['__class__'] = cls
             local['__imports__'] = {al.asname or al.name: node.module or '' for node in tree.body if isinstance(node, ast.ImportFrom) for al in node.names}
             for node in tree.body:      # `_is_integer(x)`: exactly `x % 1.0 == 0`
